@@ -26,7 +26,7 @@ func main() {
 		isish.ChildMain(runCase)
 	}
 	vf.Main("C31", "exploration", func(r *vf.Run) {
-		r.Rule("PRNG histories of 10-25 events for 1 or 2 neighbors (on two interfaces, or both on one): valid point-to-point hellos with holding time 1..30 s and a three-way TLV that is absent / state Down without neighbor / state Init, Up or Down naming this system and circuit / naming another system / naming this system with a wrong circuit id / one octet long (state only), interleaved with mock clock advances of 1..35 s taken in 1 s steps, optionally followed by silence of holding time + 3 s or + 126 s. Monitors after every hello and every 1 s step: (up-without-listing) Up only if a hello since the last non-Up state listed this system and circuit; (down-on-not-listed) a hello carrying a three-way TLV that does not list us, received while Up, leaves the adjacency not Up; (hold-expiry) no hello for the holding time of the last hello + 2 s => not Up, also when that hello lowered the holding time; (disappear) no hello for the last hello's holding time + 125 s => absent from GetAdjacencies, whatever state it was in; (lsp-up-set) whenever the local LSP's sequence number increased, its extended IS reachability TLV lists exactly the Up adjacencies (for a regeneration that raced with timers: a set between the Up sets before and after the step). distinct_nontrivial = histories in which an adjacency reached Up and left it again")
+		r.Rule("PRNG histories of 10-25 events for 1 or 2 neighbors (on two interfaces, or both on one): valid point-to-point hellos with holding time 1..30 s and a three-way TLV that is absent / state Down without neighbor / state Init, Up or Down naming this system and circuit / naming another system / naming this system with a wrong circuit id / one octet long (state only), interleaved with mock clock advances of 1..35 s taken in 1 s steps, optionally followed by silence of holding time + 3 s or + 126 s. Monitors after every hello and every 1 s step: (up-without-listing) Up only if a hello since the last non-Up state listed this system and circuit; (down-on-not-listed) a hello carrying a three-way TLV that does not list us, received while Up, leaves the adjacency not Up; (hold-expiry) no hello for the holding time of the last hello + 2 s => not Up, also when that hello lowered the holding time; (disappear) no hello for the last hello's holding time + 125 s => absent from GetAdjacencies, whatever state it was in; (lsp-up-set) whenever the local LSP's sequence number increased, its extended IS reachability TLV lists exactly the Up adjacencies (for a regeneration that raced with timers: a set between the Up sets before and after the step). Levels and areas: in half of the histories the interfaces are configured for level 1 in addition to level 2; the neighbor's hellos are level-2-only (circuit type 2) from our area (30 %), level 1+2 (circuit type 3) from another area throughout (20 %), circuit type 3 with the neighbor moved into or out of our area at a random point of the history (30 %), or circuit type and area drawn per hello (20 %); the level 2 adjacency (what GetAdjacencies reports) must not depend on either. Further monitors: (hello-ignored) after a well-formed hello with a three-way TLV the neighbor is listed by GetAdjacencies in some state; (not-up-after-listing) a hello that lists this system and circuit, from a neighbor that was listed before it, leaves the adjacency Up; (down-without-cause) an adjacency leaves Up only after a hello whose three-way TLV does not list us or when the holding time of the last accepted hello has passed. distinct_nontrivial = histories in which an adjacency reached Up and left it again")
 		r.Assume("after every hello and every 1 s clock step the harness yields until no adjacency-check tick or LSP refresh request is pending and adjacency table + local LSP sequence number are unchanged over three reads (real-time cap 20 s => inconclusive)",
 			"hellos without three-way TLV are rejected by bio-rd; the oracles make no demand on them")
 		opts := isish.Opts{Workers: 12, Scratch: filepath.Join(os.TempDir(), "isis")}
@@ -53,5 +53,11 @@ func main() {
 		r.Require("lsp_regenerations_checked", 500)
 		r.Require("not_listed_while_up", 50)
 		r.Require("hellos_lowering_hold", 500)
+		r.Require("valid_hellos_ct3/area-other", 1000)
+		r.Require("valid_hellos_ct3/area-same", 500)
+		r.Require("valid_hellos_ct2/area-other", 100)
+		r.Require("listing_hellos_to_known_neighbor_ct3/area-other", 300)
+		r.Require("up_to_notup_transitions", 300)
+		r.Require("kept_up_within_hold_checks", 1000)
 	})
 }
